@@ -338,20 +338,24 @@ Outcome check_c09(const Case &c, Stats &st) {
 // C10
 // --------------------------------------------------------------------------
 Case gen_c10(Rng &r, const Tier &t, const std::vector<std::string> &doms) {
-  Case c = gen_inter("C10", r, t, doms);
-  // the summary (bottom-up) domain differs from the forward domain in 2/3 of the cases
-  if (r.chance(2, 3)) {
-    static const char *bus[] = {"intervals", "zones_sdbm", "oct_split", "zones_sparse"};
-    std::string b = bus[r.below(4)];
-    if (find_domain(b))
-      c.domain2 = b;
-  }
-  if (c.domain2.empty())
-    c.domain2 = c.domain;
-  const DomainInfo *d2 = find_domain(c.domain2);
-  if (d2 && (d2->caps & CAP_INT64)) {
-    c.params.set("large", 0);
-    c.params.set("huge", 0);
+  Case c;
+  for (;;) {
+    c = gen_inter("C10", r, t, doms);
+    // the summary (bottom-up) domain differs from the forward domain in 2/3 of the cases
+    if (r.chance(2, 3)) {
+      static const char *bus[] = {"intervals", "zones_sdbm", "oct_split", "zones_sparse"};
+      std::string b = bus[r.below(4)];
+      if (find_domain(b))
+        c.domain2 = b;
+    }
+    if (c.domain2.empty())
+      c.domain2 = c.domain;
+    const DomainInfo *d2 = find_domain(c.domain2);
+    // a program generated with large constants is not given to a summary domain with raw
+    // int64 weights (documented not to handle overflow): draw again
+    if (d2 && (d2->caps & CAP_INT64) && (c.pbool("large") || c.pbool("huge")))
+      continue;
+    break;
   }
   c.params.set("only_main", 1);
   return c;
